@@ -77,7 +77,7 @@ PROPS = {
                          "defined before; wf_defs iff no LitAlreadyDefined; latch clashes rejected with the latch's state literal; "
                          "LitNotDefined / FoundCycle imply the defect; no unwrap panic; no OutOfFuel for any graph, cyclic or not",
         "assumes": ["zwohash::HashMap as a finite map (std++ gmap); literal type usize, codes as unbounded N (no overflow of "
-                    "last_code += 2 below 2^63 gates; the truncating `code as u8/u16/u32` of narrower literal types is not modelled)",
+                    "last_code += 2 below 2^63 gates; the truncating `code as u8/u16/u32` of narrower literal types is proved unreachable on runs that return a circuit: C12_result_codes_fit_the_literal_type)",
                     "the transfer loop runs on fuel 32*(#gates+2) per call in the model; C12_terminates proves it is never exhausted",
                     "symbols and comment are cloned unchanged by renumber_aig and are not modelled; 'no recursion' is structural "
                     "(explicit stack) and is exercised by the deep chains"],
